@@ -5,8 +5,8 @@
    A frame is a list of bytes; the frame "as a number" is le_decode frame, whose bit i is bit
    (i mod 8) of byte (i / 8) (Base.Bytes.le_decode_testbit): bit 0 of byte 0 first. *)
 From Coq Require Import ZArith List Bool.
-From CV Require Import Base.Val Base.Bytes Base.Bits Base.Tys Gen.Tables Model.Codec Model.Pdo
-  Proofs.Codec_proofs Proofs.Pdo_proofs.
+From CV Require Import Base.Val Base.Bytes Base.Bits Base.Tys Gen.Tables Gen.Src Model.Codec Model.Pdo
+  Proofs.Codec_proofs Proofs.Pdo_proofs Proofs.Src_eq_pdo.
 Import ListNotations.
 Open Scope Z_scope.
 
@@ -74,6 +74,17 @@ Theorem C05_write_preserves_neighbours : forall frame dt off len ft v dt2 off2 l
     pdo_read frame' dt2 off2 len2 = pdo_read frame dt2 off2 len2.
 Proof. exact pdo_write_preserves_other. Qed.
 
+(* Tie to the source text: PdoVariable.get_data / set_data as translated from the CURRENT source by
+   tools/py2coq.py (Gen/Src.v, regenerated on every run) are the model functions the theorems above are about
+   (a mapped field has at least one bit). *)
+Theorem C05_source_get_data_is_model : forall frame dt off len, 0 <= off -> 1 <= len ->
+  src_pdo_get_data frame (is_signed dt) (od_size dt) off len = pdo_get_data frame dt off len.
+Proof. exact src_pdo_get_data_eq. Qed.
+
+Theorem C05_source_set_data_is_model : forall frame off len data, 0 <= off -> 0 <= len ->
+  src_pdo_set_data frame off len data = pdo_set_data frame off len data.
+Proof. exact src_pdo_set_data_eq. Qed.
+
 (* ---- non-vacuity ---- *)
 (* [BOOLEAN:1, INTEGER16:16, INTEGER8:4] : an unaligned signed 16-bit field and a signed nibble *)
 Example C05_nv_layout :
@@ -98,3 +109,5 @@ Print Assumptions C05_write_rejects_out_of_range.
 Print Assumptions C05_read_after_write.
 Print Assumptions C05_full_length_value_unchanged.
 Print Assumptions C05_write_preserves_neighbours.
+Print Assumptions C05_source_get_data_is_model.
+Print Assumptions C05_source_set_data_is_model.
